@@ -137,8 +137,12 @@ pub fn run(tier: &str) -> Result<Report, String> {
     let mut rep = Report::new("C15", tier, "model_checking");
     std_assumptions(&mut rep);
     let nets = core_nets(0)?;
-    let (m, pool, which): (usize, usize, Vec<&str>) = if tier == "quick" { (3, 2, vec!["con2", "asy2", "inp2", "imp3"]) } else { (4, 5, nets.iter().map(|b| b.name.as_str()).collect()) };
-    for b in nets.iter().filter(|b| which.contains(&b.name.as_str())) {
+    let (m, pool, which): (usize, usize, Vec<String>) = if tier == "quick" { (3, 2, ["con2", "asy2", "inp2", "imp3"].iter().map(|s| s.to_string()).collect()) } else { (4, 5, nets.iter().map(|b| b.name.clone()).collect()) };
+    // plus a network whose variable names look like the auxiliary variables' names
+    let mut nets = nets;
+    nets.push(Arc::new(bind("xtr2", &crate::nets::spec("Ca_extra_cell -> b_extra_1; b_extra_1 -?? Ca_extra_cell; $b_extra_1: Ca_extra_cell"), 0)?));
+    let which: Vec<String> = which.into_iter().chain(["xtr2".to_string()]).collect();
+    for b in nets.iter().filter(|b| which.contains(&b.name)) {
         crate::sem::note_network(&mut rep, b);
         let env = Env::new(b)?;
         let mut g = Gen::new(Alphabet::all_ops(env.ctxs[0].nprops(), 3));
